@@ -130,7 +130,7 @@ func TestGenQueue(t *testing.T) {
 							"(want NACK=top, ACK < s)", s, top, a, nk)
 					})
 					if s+top <= 256 {
-						q.check((a+1)%s == top, "queue:syncer:predecessor", func() string {
+						q.check((a+1)%s == top, "c09:syncer:predecessor", func() string {
 							return fmt.Sprintf("syncer.initResendUpTo s=%d top=%d: expectedACK=%d is not the "+
 								"predecessor of top (%d) although s+top-1 fits a uint8", s, top, a, (top+s-1)%s)
 						})
